@@ -4,10 +4,12 @@
 EXTENDS Naturals, Integers, Sequences, FiniteSets
 
 VARIABLES live,      \* [id -> requested size]
+          outside,   \* [id -> size]  blocks obtained from the wrapped allocator directly: the tracer was installed
+                     \*               "midstream" (memtrace.c) and has never seen them; they count for nothing
           moving,    \* [id -> size]  blocks inside a realloc call (their accounting is in transit)
           level
 
-mvars == <<live, moving, level>>
+mvars == <<live, outside, moving, level>>
 
 RECURSIVE Sum(_, _)
 Sum(f, S) == IF S = {} THEN 0 ELSE LET x == CHOOSE y \in S : TRUE IN f[x] + Sum(f, S \ {x})
@@ -21,26 +23,40 @@ Drop(f, id) == [i \in DOMAIN f \ {id} |-> f[i]]
 (* contents disturbed; the byte total is exact whenever no other call is in progress (active = -1: not sampled) *)
 Acq(ev) ==
     /\ ev.id \notin DOMAIN live /\ ev.n >= 1 /\ ev.zero = 1 /\ ev.bad = 0 /\ ev.al16 = 1
-    /\ live' = Put(live, ev.id, ev.n) /\ UNCHANGED <<moving, level>>
+    /\ live' = Put(live, ev.id, ev.n) /\ UNCHANGED <<outside, moving, level>>
     /\ (ev.active >= 0 /\ moving = << >>) => ev.active = Bytes'
 
-RelBegin(id) == id \in DOMAIN live /\ live' = Drop(live, id) /\ UNCHANGED <<moving, level>>
+(* a block from the wrapped allocator itself: nothing the tracer reports changes *)
+AcqOutside(ev) ==
+    /\ ev.id \notin DOMAIN live \cup DOMAIN outside /\ ev.n >= 1 /\ ev.bad = 0
+    /\ outside' = Put(outside, ev.id, ev.n) /\ UNCHANGED <<live, moving, level>>
+    /\ (ev.active >= 0 /\ moving = << >>) => ev.active = Bytes
+
+(* releasing through the tracer: a tracked block leaves the totals, an outside block was never in them *)
+RelBegin(id) ==
+    /\ id \in DOMAIN live \cup DOMAIN outside
+    /\ IF id \in DOMAIN live THEN live' = Drop(live, id) /\ UNCHANGED outside
+                              ELSE outside' = Drop(outside, id) /\ UNCHANGED live
+    /\ UNCHANGED <<moving, level>>
 RelEnd(ev) == ev.bad = 0 /\ ((ev.active >= 0 /\ moving = << >>) => ev.active = Bytes) /\ UNCHANGED mvars
 
+(* resizing through the tracer: whatever the block was, the result is a tracked block with the old contents *)
 ReallocBegin(id, nold) ==
-    /\ id \in DOMAIN live /\ live[id] = nold
-    /\ moving' = Put(moving, id, nold) /\ live' = Drop(live, id) /\ UNCHANGED level
+    /\ id \in DOMAIN live \cup DOMAIN outside
+    /\ IF id \in DOMAIN live THEN live[id] = nold /\ live' = Drop(live, id) /\ UNCHANGED outside
+                              ELSE outside[id] = nold /\ outside' = Drop(outside, id) /\ UNCHANGED live
+    /\ moving' = Put(moving, id, nold) /\ UNCHANGED level
 
 ReallocEnd(ev, nnew) ==
     /\ ev.id \in DOMAIN moving /\ ev.rc = 0 /\ ev.bad = 0
     /\ IF nnew = 0 THEN ev.null = 1 /\ live' = live
        ELSE ev.null = 0 /\ ev.prefix = 1 /\ live' = Put(live, ev.id, nnew)
-    /\ moving' = Drop(moving, ev.id) /\ UNCHANGED level
+    /\ moving' = Drop(moving, ev.id) /\ UNCHANGED <<level, outside>>
     /\ (ev.active >= 0 /\ moving' = << >>) => ev.active = Bytes'
 
 (* quiescent: both numbers exact; at level 'off' both are zero *)
 Query(ev) == moving = << >> /\ ev.bytes = Bytes /\ ev.count = Count /\ UNCHANGED mvars
 (* producing a dump never changes the accounting nor anybody's memory *)
 Dump(ev) == moving = << >> /\ ev.bytes = Bytes /\ ev.count = Count /\ ev.bad = 0 /\ UNCHANGED mvars
-Destroyed(ev) == live = << >> /\ moving = << >> /\ ev.parent_live = 0 /\ ev.leaks = 0 /\ UNCHANGED mvars
+Destroyed(ev) == live = << >> /\ outside = << >> /\ moving = << >> /\ ev.parent_live = 0 /\ ev.leaks = 0 /\ UNCHANGED mvars
 =============================================================================
